@@ -26,6 +26,7 @@ CONSTANTS Nodes, Apps, Keys,       \* identifiers (strings)
           GangApps,                \* subset of Apps submitted as gang applications (Soft style)
           Guar,                    \* [Leaves -> Nat] guaranteed resource of the leaf queues (0 = none)
           PreemptOn,               \* BOOLEAN: queue preemption enabled (the Preempt action)
+          WithRestart,             \* BOOLEAN: the core may crash and be restarted (the Restart action)
           AsCoded,                 \* BOOLEAN, see above
           MaxHist                  \* bound on the recorded history
 
@@ -346,6 +347,29 @@ ReplaceCross(ph, real, n) ==
    /\ AnnounceRelease(<<ph>>, "PLACEHOLDER_REPLACED")
    /\ resv' = IF AsCoded THEN resv ELSE {r \in resv : r[1] # real}
    /\ UNCHANGED <<app, qal>> /\ Sched
+\* The core crashes and a new one is started: the shim replays what IT knows - its nodes, its applications (force-create), the
+\* allocations it holds (bound, also those the old core had asked it to release without being answered yet) and its
+\* outstanding asks.  Everything the old core knew beyond that is gone: swap links, victim marks, reservations, pending
+\* confirmations; an in-flight real half of a swap is just an outstanding ask again.
+Restart ==
+   /\ \E n \in Nodes : node[n].reg
+   /\ LET held == {k \in Keys : sv[k] \in {"bound", "relAnn"} /\ ask[k].st # "none" /\ ask[k].node \in Nodes /\ node[ask[k].node].reg /\ app[ask[k].app].known}
+          out == {k \in Keys : sv[k] = "out" /\ ask[k].st # "none" /\ app[ask[k].app].known}
+          askF == [k \in Keys |-> IF k \in held THEN [ask[k] EXCEPT !.st = "alloc", !.listed = TRUE, !.rel = "", !.released = FALSE, !.pre = FALSE, !.trig = FALSE]
+                                  ELSE IF k \in out THEN [ask[k] EXCEPT !.st = "pend", !.listed = FALSE, !.node = NoNode, !.rel = "", !.released = FALSE, !.pre = FALSE, !.trig = FALSE]
+                                  ELSE NoAsk] IN
+      /\ ask' = askF
+      /\ node' = [n \in Nodes |-> [node[n] EXCEPT !.keys = {k \in held : ask[k].node = n}]]
+      /\ qal' = [q \in Leaves |-> Sum({k \in held : AppLeaf[ask[k].app] = q}, LAMBDA k : ask[k].size)]
+      /\ pq' = [q \in Leaves |-> 0]
+      /\ resv' = {} /\ pend' = <<>>
+      /\ sv' = [k \in Keys |-> IF k \in held THEN "bound" ELSE IF k \in out THEN "out" ELSE "none"]
+      /\ app' = [a \in Apps |-> IF ~app[a].known THEN app[a]
+                                ELSE [app[a] EXCEPT !.st = IF \E k \in held : askF[k].app = a /\ ~askF[k].ph THEN "Running"
+                                                           ELSE IF \E k \in held \cup out : askF[k].app = a THEN "Accepted" ELSE "New"]]
+      /\ UNCHANGED bad
+   /\ HQ([op |-> "restart", order |-> 0])
+
 \* Queue preemption (tryAllocate -> tryPreemption): an ask of a queue below its guarantee that fits no node marks victims
 \* on one node, all in other leaf queues that stay above their own guarantee, announces their release
 \* (PREEMPTED_BY_SCHEDULER), counts them in the preempting ledger and reserves the node; it does so at most once.
@@ -376,6 +400,7 @@ Next == \/ \E n \in Nodes, c \in Caps : AddNode(n, c)
         \/ \E n \in Nodes : Drain(n) \/ Undrain(n) \/ RemoveNode(n)
         \/ \E a \in Apps : AddApp(a) \/ RemoveApp(a) \/ ReleaseAll(a) \/ FirePhTimer(a) \/ FireStateTimer(a)
         \/ \E k \in Keys, n \in Nodes : Deny(k, n)
+        \/ (WithRestart /\ Restart)
         \/ \E k \in Keys, a \in Apps, s \in Sizes : AddAsk(k, a, s, FALSE, "")
         \/ \E k \in Keys, a \in GangApps, tg \in TaskGroups : AddAsk(k, a, 2, TRUE, tg) \/ \E s \in Sizes : AddAsk(k, a, s, FALSE, tg)
         \/ \E k \in Keys : ReleaseKey(k)
